@@ -18,7 +18,7 @@ RULE = ("byte strings of every length 0..600 and sampled up to 70000 over byte c
         "I/O-drawer formats (aligned and stripped short last lines of every length 1..15, lower case, comment/blank lines).  "
         "peltool -x output is parsed back to the files' bytes.  Non-trivial: len >= 1; distinct = (bytes, layout).")
 ASSUMPTIONS = ["comment lines are drawn from lines whose first character is not a hex digit (cannot be a dump-line prefix)",
-               "BMC-format dumps stay below 64 KiB (4-digit addresses)",
+               "BMC-format dumps beyond 64 KiB are rendered with the 4-digit address wrapping around",
                "the text column's content is not constrained beyond being free of control characters"]
 
 CTRL = re.compile(r"[\x00-\x1f]")
@@ -122,7 +122,7 @@ def plan(tier, seed):
 
 def minimums(tier):
     return {"hexdump.calls": 5000, "hexdump.default_layout_roundtrips": 2000, "parse.format_checks": 6000,
-            "parse.short_last_line": 1500, "parse.with_comments": 800, "cli.hex_checked": 40, "layouts.checked": 400}
+            "parse.short_last_line": 1500, "parse.with_comments": 800, "cli.hex_checked": 40, "layouts.checked": 400, "parse.beyond_64k": 20}
 
 
 def finish(m, tier):
@@ -167,6 +167,10 @@ def run(spec, ctx):
             n = rng.choice([0, 1, 15, 16, 17, 31, 32, 33]) if rng.random() < 0.3 else rng.randrange(0, 300)
             if rng.random() < 0.2:
                 n = 16 * rng.randrange(0, 8) + rng.randrange(1, 16)        # short last line of every length
+            if i % 400 == 7:
+                # dumps beyond 64 KiB: the 4-digit address column of the BMC format wraps around, the data must not be lost
+                n = rng.choice([65535, 65536, 65537, 65552, 70000, 131072 + 5])
+                ctx.count("parse.beyond_64k")
             d = gen_bytes(rng, n)
             lower, strip = rng.random() < 0.3, rng.random() < 0.3
             if name == "default":
